@@ -1314,16 +1314,25 @@ func (r *Run) claims(kind string) bool {
 }
 
 // ghostAt runs ghost blocks anchored at the given point of the function that contains instr.
+// anchorWildcard: "before:f#*" (or "call:f#*") names every call of f.
+func anchorWildcard(pattern, anchor string) bool {
+	if !strings.HasSuffix(pattern, "#*") {
+		return false
+	}
+	i := strings.LastIndex(anchor, "#")
+	return i >= 0 && anchor[:i] == pattern[:len(pattern)-2]
+}
+
 func (r *Run) ghostAt(fr *Frame, st *State, reach Term, anchor string, instr ssa.Instruction, extra ...map[string]Val) {
 	sp := r.specFor(fr.fn)
 	if sp == nil {
 		return
 	}
 	for ai, ac := range sp.Asserts {
-		if ac.Anchor != anchor {
+		if ac.Anchor != anchor && !anchorWildcard(ac.Anchor, anchor) {
 			continue
 		}
-		r.noteAnchor(sp, anchor)
+		r.noteAnchor(sp, ac.Anchor)
 		env := r.baseEnv(fr, st)
 		if instr != nil {
 			env.pos = instr.Pos()
